@@ -13,6 +13,7 @@
  *   copy_nuclide\t<i>\t<perm>      the others are compared with a fresh copy, all are freed in the order <perm> (digits 0-3);
  *   copy_crystal\t<i>\t<perm>      -> ok independent | bad <what>
  *   copy_list\t<which>\t<perm>     list functions: two lists, first overwritten, compared, freed in order
+ *   <kind>_name\t%NULL% / mendel_z\t%NULL%        the lookup is called with a NULL name (must answer err: NULL/0 and an error object)
  * An error answer additionally requires: result NULL/0, error object set with a non-empty message (else `bad …`). */
 #include <stdio.h>
 #include <stdlib.h>
@@ -20,6 +21,7 @@
 #include "xraylib.h"
 
 static char buf[1 << 16];
+#define NULL_TOKEN "%NULL%"     /* reserved argument of the *_name / mendel_z lines: the function is called with a NULL pointer */
 
 static int err_ok(xrl_error **e) {
   int ok = (*e != NULL && (*e)->message != NULL && (*e)->message[0] != 0);
@@ -81,9 +83,17 @@ static int same_nuc(struct radioNuclideData *a, struct radioNuclideData *b) {
          memcmp(a->GammaEnergies, b->GammaEnergies, sizeof(double) * a->nGammas) == 0 && memcmp(a->GammaIntensities, b->GammaIntensities, sizeof(double) * a->nGammas) == 0 &&
          a->name != b->name && a->XrayLines != b->XrayLines && a->XrayIntensities != b->XrayIntensities && a->GammaEnergies != b->GammaEnergies && a->GammaIntensities != b->GammaIntensities;
 }
+/* every scalar of the cell (a, b, c, alpha, beta, gamma), the volume, n_atom and every field of every atom (field by field: the
+ * padding bytes of Crystal_Atom are not part of the value), and no storage shared */
 static int same_cryst(Crystal_Struct *a, Crystal_Struct *b) {
-  return strcmp(a->name, b->name) == 0 && a->n_atom == b->n_atom && a->a == b->a && a->volume == b->volume &&
-         memcmp(a->atom, b->atom, sizeof(Crystal_Atom) * a->n_atom) == 0 && a->name != b->name && a->atom != b->atom;
+  int i;
+  if (strcmp(a->name, b->name) != 0 || a->n_atom != b->n_atom) return 0;
+  if (a->a != b->a || a->b != b->b || a->c != b->c || a->alpha != b->alpha || a->beta != b->beta || a->gamma != b->gamma || a->volume != b->volume) return 0;
+  if (a->name == b->name || a->atom == b->atom) return 0;
+  for (i = 0; i < a->n_atom; i++)
+    if (a->atom[i].Zatom != b->atom[i].Zatom || a->atom[i].fraction != b->atom[i].fraction ||
+        a->atom[i].x != b->atom[i].x || a->atom[i].y != b->atom[i].y || a->atom[i].z != b->atom[i].z) return 0;
+  return 1;
 }
 
 static void copy_nist(int idx, const char *perm) {
@@ -130,8 +140,8 @@ static void copy_cryst(int idx, const char *perm) {
   if (!c[0] || !c[1] || !c[2]) { printf("bad lookup failed\n"); return; }
   if (!same_cryst(c[0], c[1]) || !same_cryst(c[1], c[2]) || !same_cryst(c[0], c[2])) { printf("bad copies share storage or differ\n"); return; }
   memset(c[0]->name, '#', strlen(c[0]->name));
-  for (i = 0; i < c[0]->n_atom; i++) { c[0]->atom[i].Zatom = -7; c[0]->atom[i].fraction = -1.5; c[0]->atom[i].x = 9.0; }
-  c[0]->a = -2.0;
+  for (i = 0; i < c[0]->n_atom; i++) { c[0]->atom[i].Zatom = -7; c[0]->atom[i].fraction = -1.5; c[0]->atom[i].x = 9.0; c[0]->atom[i].y = 8.0; c[0]->atom[i].z = 7.0; }
+  c[0]->a = -2.0; c[0]->b = -3.0; c[0]->c = -4.0; c[0]->alpha = -5.0; c[0]->beta = -6.0; c[0]->gamma = -7.0; c[0]->volume = -8.0;
   c[3] = Crystal_GetCrystal(name, NULL, &e);
   if (!c[3] || !same_cryst(c[1], c[3]) || !same_cryst(c[2], c[3])) { printf("bad catalogue or sibling copy changed after mutation of a copy\n"); return; }
   for (p = perm; *p; p++) Crystal_Free(c[*p - '0']);
@@ -193,6 +203,7 @@ int main(int argc, char **argv) {
     cmd = buf; a1 = strchr(buf, '\t'); a2 = NULL;
     if (a1) { *a1++ = 0; }
     if (a1 && !strncmp(cmd, "copy_", 5)) { a2 = strchr(a1, '\t'); if (a2) *a2++ = 0; }
+    if (a1 && !strcmp(a1, NULL_TOKEN) && (!strcmp(cmd, "mendel_z") || (strlen(cmd) > 5 && !strcmp(cmd + strlen(cmd) - 5, "_name")))) a1 = NULL;   /* a NULL name */
     if (!strcmp(cmd, "mendel_sym")) {
       char *s = AtomicNumberToSymbol(atoi(a1), &e);
       if (s) { if (e) printf("bad result and error\n"); else printf("ok %s\n", s); xrlFree(s); } else printf(err_ok(&e) ? "err\n" : "bad NULL without error\n");
